@@ -128,3 +128,92 @@ package helper
 //@     invariant min == MaxInt32 || V[min]
 //@     invariant card(D) == replicas
 //@     invariant forall x int32 :: {D[x]} {count(S, 0, x)} D[x] <==> desired(replicas, S, x)
+
+// ---- upgrade from the built-in StatefulSet (C17) -------------------------------------------------------------
+//@ const UpgradeAnn = "apps.pingcap.com/upgrade-to-asts"
+//@ ghost global gRelabelled set[string]   -- names of the revisions whose relabelling update was issued successfully
+//@ ghost global gAsOk bool                -- the Advanced StatefulSet with the built-in's name and spec has been created or updated
+//@ ghost global gStOk bool                -- its status has been written
+//@ ghost global gUpWrites int              -- writes issued by Upgrade so far
+//@ ghost global gUpFailed bool             -- some API call of this Upgrade run failed (other than the tolerated NotFound of the final delete)
+
+//@ func FromBuiltinStatefulSet
+//@   trusted "json.Marshal of the built-in type followed by json.Unmarshal into the Advanced type (see C19): assumed to return a fresh object with the same metadata; spec and status are its images"
+//@   results converted, err
+//@   requires sts != nil
+//@   ensures err == nil ==> converted != nil && fresh(converted) && converted.Name == sts.Name && converted.Namespace == sts.Namespace
+//@   ensures err != nil ==> errLocal(err)
+
+//@ extern k8s.io/client-go/kubernetes/typed/apps/v1:ControllerRevisionInterface.List@Upgrade
+//@   params c, ctx, opts
+//@   results list, lerr
+//@   modifies gUpFailed
+//@   ensures gUpFailed == (old(gUpFailed) || lerr != nil)
+//@   ensures lerr == nil ==> list != nil && fresh(list)
+//@   -- assumed: every listed revision carries a label map (it matched the built-in set's selector, which API validation keeps non-empty)
+//@   ensures lerr == nil ==> (forall i int :: {list.Items[i]} 0 <= i && i < len(list.Items) ==> list.Items[i].Labels != nil && fresh(list.Items[i].Labels))
+//@ extern k8s.io/client-go/kubernetes/typed/apps/v1:ControllerRevisionInterface.Update@Upgrade
+//@   params c, ctx, rev, opts
+//@   results updated, uerr
+//@   requires rev != nil
+//@   requires [C17] marker: rev.Labels != nil && rev.Labels.has(UpgradeAnn) && rev.Labels[UpgradeAnn] == sts.Name
+//@   requires [C17] selectorgone: forall k string :: {rev.Labels.has(k)} sts.Spec.Selector.MatchLabels.has(k) ==> !rev.Labels.has(k) || k == UpgradeAnn
+//@   requires [C17] before: !gAsOk && !gStOk
+//@   modifies gRelabelled, gUpWrites, gUpFailed
+//@   ensures gUpWrites == old(gUpWrites) + 1 && gUpFailed == (old(gUpFailed) || uerr != nil)
+//@   ensures gRelabelled == ite(uerr == nil, store(old(gRelabelled), rev.Name, true), old(gRelabelled))
+//@ extern github.com/pingcap/advanced-statefulset/client/client/clientset/versioned/typed/apps/v1:StatefulSetInterface.Get@Upgrade
+//@   params c, ctx, name, opts
+//@   results existing, gerr
+//@   modifies gUpFailed
+//@   ensures gUpFailed == (old(gUpFailed) || (gerr != nil && !errNotFound(gerr)))
+//@   ensures gerr == nil ==> existing != nil && fresh(existing) && existing.Name == name
+//@ extern github.com/pingcap/advanced-statefulset/client/client/clientset/versioned/typed/apps/v1:StatefulSetInterface.Create@Upgrade
+//@   params c, ctx, obj, opts
+//@   results created, cerr
+//@   requires obj != nil
+//@   requires [C17] samenamespec: obj.Name == sts.Name && obj.Namespace == sts.Namespace && obj.Spec == upgradedSts.Spec && obj.ResourceVersion == ""
+//@   requires [C17] relabelledfirst: forall i int :: {oldRevisionList.Items[i]} 0 <= i && i < len(oldRevisionList.Items) ==> gRelabelled[oldRevisionList.Items[i].Name]
+//@   modifies gAsOk, gUpWrites, gUpFailed
+//@   ensures gUpWrites == old(gUpWrites) + 1 && gUpFailed == (old(gUpFailed) || cerr != nil) && gAsOk == (cerr == nil)
+//@   ensures cerr == nil ==> created != nil && fresh(created) && created.Name == obj.Name && created.Namespace == obj.Namespace && created.Spec == obj.Spec
+//@ extern github.com/pingcap/advanced-statefulset/client/client/clientset/versioned/typed/apps/v1:StatefulSetInterface.Update@Upgrade
+//@   params c, ctx, obj, opts
+//@   results updated, uerr
+//@   requires obj != nil
+//@   requires [C17] samenamespec: obj.Name == sts.Name && obj.Spec == upgradedSts.Spec
+//@   requires [C17] relabelledfirst: forall i int :: {oldRevisionList.Items[i]} 0 <= i && i < len(oldRevisionList.Items) ==> gRelabelled[oldRevisionList.Items[i].Name]
+//@   modifies gAsOk, gUpWrites, gUpFailed
+//@   ensures gUpWrites == old(gUpWrites) + 1 && gUpFailed == (old(gUpFailed) || uerr != nil) && gAsOk == (uerr == nil)
+//@   ensures uerr == nil ==> updated != nil && fresh(updated) && updated.Name == obj.Name && updated.Namespace == obj.Namespace && updated.Spec == obj.Spec
+//@ extern github.com/pingcap/advanced-statefulset/client/client/clientset/versioned/typed/apps/v1:StatefulSetInterface.UpdateStatus@Upgrade
+//@   params c, ctx, obj, opts
+//@   results updated, uerr
+//@   requires obj != nil
+//@   requires [C17] afterobject: gAsOk && obj.Name == sts.Name && obj.Status == upgradedSts.Status
+//@   modifies gStOk, gUpWrites, gUpFailed
+//@   ensures gUpWrites == old(gUpWrites) + 1 && gUpFailed == (old(gUpFailed) || uerr != nil) && gStOk == (uerr == nil)
+//@   ensures uerr == nil ==> updated != nil && fresh(updated) && updated.Name == obj.Name
+//@ extern k8s.io/client-go/kubernetes/typed/apps/v1:StatefulSetInterface.Delete@Upgrade
+//@   params c, ctx, name, opts
+//@   requires [C17] last: gAsOk && gStOk && name == sts.Name
+//@   requires [C17] orphan: opts.PropagationPolicy != nil && deref(opts.PropagationPolicy) == "Orphan"
+//@   requires [C17] relabelledall: forall i int :: {oldRevisionList.Items[i]} 0 <= i && i < len(oldRevisionList.Items) ==> gRelabelled[oldRevisionList.Items[i].Name]
+//@   modifies gUpWrites, gUpFailed
+//@   ensures gUpWrites == old(gUpWrites) + 1 && gUpFailed == (old(gUpFailed) || (result != nil && !errNotFound(result)))
+
+//@ func Upgrade
+//@   results upgraded, err
+//@   requires c != nil && asc != nil && sts != nil && sts.Spec.Selector != nil
+//@   at entry: ghost gRelabelled = emptyset(); ghost gAsOk = false; ghost gStOk = false; ghost gUpWrites = 0; ghost gUpFailed = false
+//@   modifies gRelabelled, gAsOk, gStOk, gUpWrites, gUpFailed
+//@   ensures [C17] failstop: gUpFailed ==> err != nil
+//@   ensures [C17] complete: err == nil ==> gAsOk && gStOk && upgraded != nil
+//@   ensures [C09,C17] origin: err != nil ==> gUpFailed || errLocal(err) || errSelector(err)
+//@   loop 1 "range oldRevisionList.Items" index j frame entry
+//@     invariant !gAsOk && !gStOk && !gUpFailed
+//@     invariant [C17] relabelled: forall i int :: {oldRevisionList.Items[i]} 0 <= i && i < j ==> gRelabelled[oldRevisionList.Items[i].Name]
+//@   loop 2 "range sts.Spec.Selector.MatchLabels" visited V frame entry
+//@     invariant !gAsOk && !gStOk && !gUpFailed
+//@     invariant [C17] removed: forall k string :: {V[k]} V[k] ==> !revision.Labels.has(k)
+//@     invariant [C17] relabelled: forall i int :: {oldRevisionList.Items[i]} 0 <= i && i < j ==> gRelabelled[oldRevisionList.Items[i].Name]
